@@ -106,6 +106,7 @@ type Options struct {
 	NonIntNumbers bool                // numbers with fractions/exponents (outside the Lean model's domain)
 	EmptySecurity bool                // `security: []` on operations (C14)
 	PayloadNulls  bool                // nulls / empty containers nested in free-form payloads
+	NullExt       bool                // vendor extensions whose value is null (kept by the decoder, written back as null)
 	XOrder        bool                // x-order extension on property schemas
 	MemberP       float64             // probability of each optional member in random subsets
 	Valid         bool                // aim at documents that validate against the Swagger 2.0 meta-schema (C19)
@@ -448,7 +449,11 @@ func (g *G) Build(kind, variant string, optional []string, depth int, decorate b
 		}
 		if kv.Ext && g.O.Extensions && g.coin(0.3) {
 			for _, n := range g.distinct(1+g.R.Intn(2), func() string { return g.pick(extNames) }) {
-				ms = append(ms, wire.M(n, g.Payload(2, true)))
+				if g.O.NullExt && g.coin(0.25) {
+					ms = append(ms, wire.M(n, wire.NullV()))
+				} else {
+					ms = append(ms, wire.M(n, g.Payload(2, true)))
+				}
 				g.Used[kind+".<x->"]++
 			}
 		}
